@@ -15,6 +15,7 @@ structure Sig where
   v : Bool
   r : Bool
   b : Beat
+  u : Beat := Beat.zero   -- undefined bits of the word fields (masks); `eop`/`sop` = that flag is undefined
   undef : Bool
   rUndef : Bool := false
   deriving Inhabited
@@ -32,6 +33,10 @@ structure StCheck where
   run : Run
   spec : SpecRun
   expected : Array Beat := #[]
+  expTags : Array (List String) := #[]   -- per expected beat: fields its source beats left (partly) undefined
+  pendU : List String := []              -- … of the accepted beats that have not produced an output beat yet
+  stale : Bool := false                  -- widthExtend: the slots an eop-terminated group does not reach keep older content
+  checkUndef : Bool := true
   nout : Nat := 0
   nin : Nat := 0
 
@@ -84,6 +89,18 @@ def beatDiff (a b : Beat) : String :=
     (if a.sop != b.sop then ["sop"] else []) ++ (if a.aux != b.aux then ["aux"] else []) ++
     (if a.be != b.be then ["be"] else []) ++ (if a.emp != b.emp then ["emp"] else []))
 
+/-- `x` with the bits of mask `m` cleared -/
+def clrBits (x m : Nat) : Nat := x - (x &&& m)
+
+/-- a model beat with everything the implementation reports as undefined cleared (the harness logs undefined bits as 0) -/
+def maskBeat (b u : Beat) : Beat :=
+  ⟨clrBits b.data u.data, b.eop && !u.eop, b.sop && !u.sop, clrBits b.aux u.aux, clrBits b.be u.be, clrBits b.emp u.emp⟩
+
+/-- names of the fields that have an undefined bit -/
+def undefFields (u : Beat) : List String :=
+  (if u.data != 0 then ["data"] else []) ++ (if u.eop then ["eop"] else []) ++ (if u.sop then ["sop"] else []) ++
+  (if u.aux != 0 then ["aux"] else []) ++ (if u.be != 0 then ["be"] else []) ++ (if u.emp != 0 then ["emp"] else [])
+
 def words (l : String) : List String := (l.trimAscii.toString.splitOn " ").filter (· ≠ "")
 
 def kv (ws : List String) (k : String) : Option String :=
@@ -100,9 +117,13 @@ def parseSig (w : String) : Sig :=
     -- payload is logged in every cycle (undefined bits of the words as 0); only flags can be `u`
     -- an undefined ready on a stream that offers nothing is not a handshake event (simulator pessimism: e.g. widthExtend
     -- derives ready(source) from eop(source) of whatever an invalid source happens to hold)
-    let und := v == 'u' || (r == 'u' && v == '1') || (v == '1' && (e == 'u' || s == 'u'))
-    ⟨v == '1', r == '1', ⟨parseHex d, e == '1', s == '1', parseHex m, parseHex be, parseHex emp⟩, und, r == 'u'⟩
-  | _ => ⟨false, false, Beat.zero, true, false⟩
+    -- undefined payload / meta bits are kept as masks (`<hex>/<hex mask>`, flags `u`) and checked where beats are transferred
+    let und := v == 'u' || (r == 'u' && v == '1')
+    let val (x : String) : Nat := parseHex ((x.splitOn "/").headD "0")
+    let msk (x : String) : Nat := match x.splitOn "/" with | [_, m] => parseHex m | _ => 0
+    ⟨v == '1', r == '1', ⟨val d, e == '1', s == '1', val m, val be, val emp⟩,
+     ⟨msk d, e == 'u', s == 'u', msk m, msk be, msk emp⟩, und, r == 'u'⟩
+  | _ => ⟨false, false, Beat.zero, Beat.zero, true, false⟩
 
 def parseDesc (ws : List String) : Option Desc :=
   -- "stage <i> <name> params… win= wout="
@@ -148,7 +169,8 @@ def Desc.usesCtl : Desc → Bool
 end Gatery.C16
 
 def mkCheck (d : Desc) : StCheck :=
-  { name := d.name, run := ⟨d.stage, d.stage.init⟩, spec := ⟨d.spec, d.spec.init⟩ }
+  { name := d.name, run := ⟨d.stage, d.stage.init⟩, spec := ⟨d.spec, d.spec.init⟩,
+    stale := match d with | .pext .. => true | _ => false }
 
 instance : Inhabited StCheck := ⟨mkCheck .ds⟩
 
@@ -165,7 +187,7 @@ def finishSetup (cs : CaseSt) : CaseSt :=
     stages := cs.descs.map mkCheck
     inPkt := Array.replicate (cs.descs.size + 1) false
     chain := some ⟨S, S.init⟩
-    chainSpec := some { name := "chain", run := ⟨wire, ()⟩, spec := ⟨T, T.init⟩ } }
+    chainSpec := some { name := "chain", run := ⟨wire, ()⟩, spec := ⟨T, T.init⟩, checkUndef := false } }  -- undefined bits are attributed per stage
 
 def ctlOf (bits : List Bool) : Ctl := fun i => bits.getD i false
 
@@ -179,16 +201,27 @@ def specStep (c : StCheck) (bi bo : Sig) : StCheck × Option String := Id.run do
   let mut err : Option String := none
   if bo.v && bo.r then
     let k := c.nout
-    let exp : Option Beat :=
-      if k < c.expected.size then c.expected[k]? else
-        if bi.v then (c.spec.T.runFrom c.spec.s [bi.b])[k - c.expected.size]? else none
+    let exp : Option (Beat × List String) :=
+      if k < c.expected.size then (c.expected[k]?).map fun e => (e, c.expTags.getD k [])
+      else if bi.v then ((c.spec.T.runFrom c.spec.s [bi.b])[k - c.expected.size]?).map fun e => (e, c.pendU ++ undefFields bi.u)
+      else none
     match exp with
-    | some e => if e != bo.b then err := some s!"fields={beatDiff e bo.b} emitted[{k}]={showBeat bo.b} expected={showBeat e}"
+    | some (e, tag) =>
+      -- a transferred beat must not carry an undefined bit in a field that its source beats defined
+      let exempt := tag ++ (if c.stale && e.eop then ["data", "be"] else [])
+      let bad := (undefFields bo.u).filter fun f => !exempt.contains f
+      if c.checkUndef && !bad.isEmpty then
+        err := some s!"undef={"+".intercalate bad} emitted[{k}]={showBeat bo.b} undefined_bits={showBeat bo.u} expected={showBeat e}"
+      else if maskBeat e bo.u != bo.b then
+        err := some s!"fields={beatDiff (maskBeat e bo.u) bo.b} emitted[{k}]={showBeat bo.b} expected={showBeat e}"
     | none => err := some s!"emitted[{k}]={showBeat bo.b} but no accepted or offered beat is left to account for it"
     c := { c with nout := k + 1 }
   if bi.v && bi.r then
     let r := c.spec.T.step c.spec.s bi.b
-    c := { c with spec := ⟨c.spec.T, r.1⟩, expected := c.expected ++ r.2.toArray, nin := c.nin + 1 }
+    let pend := c.pendU ++ (undefFields bi.u).filter fun f => !c.pendU.contains f
+    c := { c with spec := ⟨c.spec.T, r.1⟩, expected := c.expected ++ r.2.toArray,
+                  expTags := c.expTags ++ (r.2.map fun _ => pend).toArray,
+                  pendU := if r.2.isEmpty then pend else [], nin := c.nin + 1 }
   return (c, err)
 
 def stepRun (r : Run) (ctl : Ctl) (bi bo : Sig) : Run × Fwd Beat × Bool :=
@@ -197,7 +230,7 @@ def stepRun (r : Run) (ctl : Ctl) (bi bo : Sig) : Run × Fwd Beat × Bool :=
 
 def cmpOut (what : String) (o : Fwd Beat) (rin : Bool) (bi bo : Sig) : Option String :=
   if o.valid != bo.v then some s!"{what} field=vout model={o.valid} impl={bo.v}"
-  else if bo.v && o.data != bo.b then some s!"{what} field=dout model={showBeat o.data} impl={showBeat bo.b}"
+  else if bo.v && maskBeat o.data bo.u != bo.b then some s!"{what} field=dout model={showBeat o.data} impl={showBeat bo.b}"
   else if !bi.rUndef && rin != bi.r then some s!"{what} field=rin model={rin} impl={bi.r}"
   else none
 
@@ -233,6 +266,9 @@ def stageStep (sigs : Array Sig) (ctlBits : List Bool) (ac : DAcc × List Bool) 
       let nxt := match a.cs.descs[i+1]? with | some (d2 : Desc) => d2.kind | none => "end"
       -- signature = stage kind + the beat fields that are wrong (`seq:pred:sop`), or `:extra` for a beat nobody accounted for
       let flds := if e.startsWith "fields=" then ((e.drop 7).toString.splitOn " ").headD "?" else "extra"
+      if e.startsWith "undef=" then
+        a.fail s!"undef:{desc.kind}:{((e.drop 6).toString.splitOn " ").headD "?"}" s!"stage={i} {st.name} next={nxt} cyc={a.cs.cyc} {e}"
+      else
       a.fail s!"seq:{desc.kind}:{flds}" s!"stage={i} {st.name} next={nxt} cyc={a.cs.cyc} {e}"
     | none => a
   let d := a.d
@@ -248,7 +284,7 @@ def lawStep (sigs : Array Sig) (ctlBits : List Bool) (a : DAcc) (j : Nat) : DAcc
   let p := a.cs.prev[j]!; let q := sigs[j]!
   if p.v && !p.r then
     let a := { a with d := { a.d with lawEvents := a.d.lawEvents + 1 } }
-    if !(q.v && q.b == p.b) then
+    if !(q.v && q.b == p.b && q.u == p.u) then
       if j == 0 then a.diff "harness producer violates the interface law"
       else
         let desc : Desc := a.cs.descs[j-1]!
